@@ -698,6 +698,24 @@ func checkC17(e *Engine, r *Report) {
 		}
 	})
 
+	r.Rule("R8", "CONST", "a deployment is a NEW registration: every Deploy…CustomPrecompiledContract hands the constant newDeployment=true to SetCustomPrecompiledContractMeta, whose uniqueness guard (address already in use ⇒ error) then applies — a computed flag turns a repeated deployment into a silent overwrite (metadata replaced, Disabled reset, address no longer unique)", 3, func() {
+		set := e.Fn(pkgCpcKeeper, "Keeper.SetCustomPrecompiledContractMeta")
+		n := 0
+		for _, cs := range e.repoCallSites(func(c ssa.CallInstruction) bool { return c.Common().StaticCallee() == set }) {
+			top := topFn(cs.Fn)
+			if !strings.HasPrefix(top.Name(), "Deploy") {
+				continue
+			}
+			n++
+			a := cs.Call.Common().Args
+			b, isK := constBool(a[len(a)-1])
+			r.Check(isK && b, "deploy is a new registration › "+fnKey(cs.Fn), e.Pos(cs.Call.Pos()), "SetCustomPrecompiledContractMeta(ctx, meta, true)", "the deployment does not force newDeployment=true: when the address is already registered the setter takes its update path, so a second deployment overwrites the registered contract's metadata instead of being refused")
+		}
+		if n == 0 {
+			r.Bad("deploy is a new registration", "", "no Deploy… function calls SetCustomPrecompiledContractMeta (anchors moved?)")
+		}
+	})
+
 	r.Rule("R7", "KEY-INJECTIVE", "registry records are keyed injectively: metadata by the contract address, the ERC-20 index by the denomination (unique address per contract, one precompile per denomination)", 2, func() {
 		e.checkKeyBuilders(r, pkgCpcTypes, []string{"CustomPrecompiledContractMetaKey", "Erc20CustomPrecompiledContractMinDenomToAddressKey"}, "two contracts (or two denominations) share one registry record: the address is no longer unique / the denomination index no longer matches the metadata")
 	})
